@@ -598,7 +598,7 @@ pub(crate) fn probe_from_rule(rng: &mut Rng, rule: &Value) -> Probe {
 }
 
 /// boundaries of every window of a rule, in unix seconds (absolute) or seconds of day
-fn window_edges(rule: &Value) -> Vec<i64> {
+pub(crate) fn window_edges(rule: &Value) -> Vec<i64> {
     let mut v = Vec::new();
     if let Some(ranges) = rule["source"]["datetime"].as_array() {
         for r in ranges {
@@ -660,6 +660,7 @@ fn gen_case(rng: &mut Rng, prop: &str, mode: &str, tier: Tier) -> W1Case {
     let nids = (npool * 2 / 3).max(2);
     let ids = id_pool(rng, nids);
     let cluster = rng.chance(1, 5);
+    let host_cluster = rng.chance(1, 5);
     for k in 0..npool {
         let id = ids[k % nids].clone();
         let mut r = rg.rule(rng, &id, &swarm);
@@ -685,6 +686,38 @@ fn gen_case(rng: &mut Rng, prop: &str, mode: &str, tier: Tier) -> W1Case {
                 }
                 r["stop"] = if rng.chance(1, 4) { json!(true) } else { Value::Null };
                 r["reset"] = if rng.chance(1, 4) { json!(true) } else { Value::Null };
+            }
+        }
+        if host_cluster && rng.coin() {
+            // a family of rules on one site: exact host, host patterns covering it, any host; same few paths and
+            // hardly any other trigger, so that an exact-host rule and a pattern-host rule match the same request
+            let host = rng.pick(&[Some("abc.example.com"), Some("@sub.example.com"), None, Some("ABC.example.com"), Some("@sub.shop.example.com"), Some("x.shop.example.com"), Some("www.@dom")]).clone();
+            let path = rng.pick_str(&["/a", "/blog/@slug", "/a"]);
+            let scheme = rng.pick(&[None, None, Some("https"), Some("http")]).clone();
+            r["source"] = json!({"scheme": scheme, "host": host, "ips": Value::Null, "path": path, "query": Value::Null, "headers": Value::Null,
+                "methods": Value::Null, "exclude_methods": Value::Null, "response_status_codes": r["source"]["response_status_codes"].clone(),
+                "exclude_response_status_codes": r["source"]["exclude_response_status_codes"].clone(), "sampling": Value::Null});
+            let mut markers = Vec::new();
+            if path.contains("@slug") {
+                markers.push(json!({"name": "slug", "regex": "(?:[a-z]|\\-)+?"}));
+            }
+            if let Some(h) = host {
+                if h.contains("@sub") {
+                    markers.push(json!({"name": "sub", "regex": "[a-z]+"}));
+                }
+                if h.contains("@dom") {
+                    markers.push(json!({"name": "dom", "regex": "[a-z]+\\.(?:com|org)"}));
+                }
+            }
+            if markers.is_empty() {
+                r.as_object_mut().unwrap().remove("markers");
+            } else {
+                r["markers"] = json!(markers);
+            }
+            if let Some(t) = r["target"].as_str() {
+                if t.contains('@') {
+                    r["target"] = json!(format!("/t/{id}"));
+                }
             }
         }
         if cluster && rng.coin() {
